@@ -308,7 +308,10 @@ func (t *Tr) bindDummyResults(env *Env) {
 		ty := sig.Results().At(i).Type()
 		s := t.vc.sortOf(ty)
 		v := Val{T: Term{t.fresh("dummy", s), s}, Ty: ty}
-		for _, n := range names {
+		for k, n := range names {
+			if _, isParam := t.paramEnv[n]; isParam && k > 0 {
+				continue
+			}
 			env.vars[n] = v
 		}
 	}
